@@ -36,10 +36,11 @@
                        wits |-> sequence of names]
      execution x    : [cl, cnt (request counters), reqs (requests of this call, in the
                        order the specification makes them), ev (evidence reports), ph]
-     schedule sched : a sequence of witness names -- the order in which concurrent witness
-                      replies are consumed (detector.go detectDivergence, client.go
-                      findNewPrimary, compareFirstHeaderWithWitnesses).  THE nondeterministic
-                      choice of the component.                                            *)
+     schedule sched : a sequence of orders (sequences of witness names), one per fan-out of
+                      the call -- the order in which concurrent witness replies are
+                      consumed (detector.go detectDivergence, client.go findNewPrimary,
+                      compareFirstHeaderWithWitnesses).  THE nondeterministic choice of the
+                      component.                                                          *)
 EXTENDS Integers, Sequences, FiniteSets, TLC
 
 CONSTANTS
@@ -193,9 +194,14 @@ RECURSIVE Dedup(_, _)
 Dedup(s, seen) == IF s = << >> THEN << >>
                   ELSE IF Head(s) \in seen THEN Dedup(Tail(s), seen)
                   ELSE <<Head(s)>> \o Dedup(Tail(s), seen \cup {Head(s)})
-FanOrder(sched, wits) ==
-  LET a == Dedup(SelectSeq(sched, LAMBDA n : n \in Range(wits)), {})
+FanOrder(perm, wits) ==
+  LET a == Dedup(SelectSeq(perm, LAMBDA n : n \in Range(wits)), {})
       b == Dedup(SelectSeq(wits, LAMBDA n : n \notin Range(a)), {}) IN a \o b
+\* a schedule is a sequence of such orders, one per fan-out of the call (the last repeats);
+\* x.fan counts the fan-outs made so far
+Bump(x) == [x EXCEPT !.fan = @ + 1]
+OrderAt(sched, x, wits) ==
+  IF sched = << >> THEN wits ELSE FanOrder(sched[Min2(IF x.fan < 1 THEN 1 ELSE x.fan, Len(sched))], wits)
 
 \* client.go removeWitnesses: descending index order, swap with last
 RECURSIVE RemoveDesc(_, _)
@@ -238,8 +244,8 @@ FNPLoop(sc, x, rs, order, i, toRemove, lastErr, remove) ==
 
 FindNewPrimary(sc, x, h, remove, sched) ==
   IF Len(x.cl.wits) = 0 THEN [x |-> x, err |-> "NoWitnesses", b |-> Nil]
-  ELSE LET a == AskAll(sc, x, x.cl.wits, h, 1, << >>) IN
-       FNPLoop(sc, a.x, a.rs, FanOrder(sched, x.cl.wits), 1, {}, Nil, remove)
+  ELSE LET a == AskAll(sc, Bump(x), x.cl.wits, h, 1, << >>) IN
+       FNPLoop(sc, a.x, a.rs, OrderAt(sched, a.x, x.cl.wits), 1, {}, Nil, remove)
 
 \* client.go lightBlockFromPrimary  [x, err, b]
 LightBlockFromPrimary(sc, x, h, sched) ==
@@ -402,10 +408,10 @@ Attackers(sc, x, trace, rep, now) ==
 Detect(sc, x0, trace, now, sched) ==
   IF Len(trace) < 2 THEN [x |-> x0, res |-> "NilTrace"]
   ELSE IF Len(x0.cl.wits) = 0 THEN [x |-> x0, res |-> "NoWitnesses"]
-  ELSE LET x == [x0 EXCEPT !.ph = "det", !.tr = trace]
+  ELSE LET x == [x0 EXCEPT !.ph = "det", !.tr = trace, !.fan = @ + 1]
            c == CompareAll(sc, x, x.cl.wits, trace[Len(trace)], 1, << >>)
            y == [c.x EXCEPT !.att = Attackers(sc, c.x, trace, c.rep, now)] IN
-       DetectLoop(sc, y, trace, Channel(FanOrder(sched, x.cl.wits), c.rep), 1, FALSE, {}, now)
+       DetectLoop(sc, y, trace, Channel(OrderAt(sched, x, x.cl.wits), c.rep), 1, FALSE, {}, now)
 
 \* ------------------------------------------------------------------ client.go verification modes
 \* verifySkippingAgainstPrimary  [x, res]
@@ -481,7 +487,7 @@ VerifyLightBlock(sc, x, l, now, sched) ==
         res |-> Nil]
 
 NewExec(cl, cnt) == [cl |-> cl, cnt |-> cnt, reqs |-> << >>, ev |-> << >>, ph |-> "pri",
-                     tr |-> << >>, att |-> {}]
+                     tr |-> << >>, att |-> {}, fan |-> 0]
 
 \* VerifyLightBlockAtHeight(ctx, height, now)  [x, res]
 VerifyAtHeight(sc, cl, cnt, h, now, sched) ==
@@ -521,9 +527,9 @@ InitClient(sc, primary, wits, cnt, rootH, rootHid, sched) ==
     ELSE IF B(sc, f.b).hid # rootHid THEN [x |-> f.x, res |-> "other"]
     ELSE IF VerifyCommitLight(B(sc, f.b).vals, B(sc, f.b).sigs) # "ok" THEN [x |-> f.x, res |-> "other"]
     ELSE IF Len(f.x.cl.wits) = 0 THEN [x |-> f.x, res |-> "NoWitnesses"]
-    ELSE LET x1 == [f.x EXCEPT !.ph = "det"]
+    ELSE LET x1 == [f.x EXCEPT !.ph = "det", !.fan = @ + 1]
              c  == CompareAll(sc, x1, x1.cl.wits, f.b, 1, << >>)
-             r  == FirstLoop(sc, c.x, Channel(FanOrder(sched, x1.cl.wits), c.rep), 1, {}) IN
+             r  == FirstLoop(sc, c.x, Channel(OrderAt(sched, x1, x1.cl.wits), c.rep), 1, {}) IN
          IF r.res # Nil THEN r
          ELSE [x |-> [r.x EXCEPT !.cl.store = {f.b}, !.cl.latest = f.b], res |-> Nil]
 
